@@ -145,7 +145,7 @@ Record PC (k : call) : Prop := {
   f5 : h_se (k_ch k) = true ->
        In KEnd (k_qc k) \/ In (KHeaders true) (k_qc k) \/ h_re (k_sh k) = true \/
        h2_closed (k_sh k) = true;
-  f6 : h_sr (k_ch k) = true -> In KRst (k_qc k) \/ h2_closed (k_sh k) = true;
+  f6 : h_sr (k_ch k) = true -> k_held k = true \/ In KRst (k_qc k) \/ h2_closed (k_sh k) = true;
   f7 : h_rr (k_ch k) = true -> h_sr (k_sh k) = true;
   f8 : h_re (k_ch k) = true -> h_se (k_sh k) = true;
   f9 : In KRst (k_qs k) -> h_sr (k_sh k) = true;
@@ -153,7 +153,8 @@ Record PC (k : call) : Prop := {
   f12 : k_sph k = SExited false -> h_se (k_sh k) = true \/ h2_closed (k_sh k) = true;
   f13 : h_se (k_sh k) = true -> k_trail k = true;
   f14 : k_trail k = true -> h_se (k_sh k) = true;
-  f15 : k_cancel k = true -> h_sr (k_sh k) = true
+  f15 : k_cancel k = true -> h_sr (k_sh k) = true;
+  f16 : k_held k = true -> h_sr (k_ch k) = true
 }.
 
 Lemma PC_call0 : PC call0.
@@ -168,7 +169,8 @@ Ltac dk k :=
   let sph := fresh "sph" in let so := fresh "so" in let sse := fresh "sse" in
   let sre := fresh "sre" in let ssr := fresh "ssr" in let srr := fresh "srr" in
   let tr := fresh "tr" in let cn := fresh "cn" in let qc := fresh "qc" in let qs := fresh "qs" in
-  destruct k as [cph [co cse cre csr crr] sph [so sse sre ssr srr] tr cn qc qs].
+  let hd := fresh "hd" in
+  destruct k as [cph [co cse cre csr crr] sph [so sse sre ssr srr] tr cn qc qs hd].
 
 Ltac inv_idle :=
   repeat match goal with
@@ -181,8 +183,8 @@ Ltac open_pc H :=
   let a4 := fresh "F1c" in let a5 := fresh "F2" in let a6 := fresh "F3" in let a7 := fresh "F4" in
   let a8 := fresh "F5" in let a9 := fresh "F6" in let b0 := fresh "F7" in let b1 := fresh "F8" in
   let b2 := fresh "F9" in let b3 := fresh "F10" in let b4 := fresh "F12" in let b5 := fresh "F13" in
-  let b6 := fresh "F14" in let b7 := fresh "F15" in
-  destruct H as [a0 a1 a2 a3 a4 a5 a6 a7 a8 a9 b0 b1 b2 b3 b4 b5 b6 b7].
+  let b6 := fresh "F14" in let b7 := fresh "F15" in let b8 := fresh "F16" in
+  destruct H as [a0 a1 a2 a3 a4 a5 a6 a7 a8 a9 b0 b1 b2 b3 b4 b5 b6 b7 b8].
 
 (* ------------------------------------------------------------------------------------------ *)
 (* every local action preserves the per-call invariant *)
@@ -219,7 +221,7 @@ Lemma PC_open k es :
 Proof.
   intros H P. pose proof (f1a k H P) as O.
   destruct (f2 k H O) as [Q SO]. destruct (f3 k H SO) as (QS & SP & _).
-  pose proof (f0s k H SO) as SI. open_pc H.
+  pose proof (f0s k H SO) as SI. pose proof (f0c k H O) as CI. open_pc H.
   dk k; cbn in *; subst. inv_idle.
   constructor; cbn; intros; try discriminate; auto.
   - repeat split; auto. intros _. exists es, []. split; [reflexivity|apply no_hdr_nil].
@@ -246,9 +248,9 @@ Proof.
             eexists es, (r ++ [_]); split; [reflexivity|]; apply no_hdr_app; auto; discriminate).
   all: try (destruct (F4 H) as [A B]; split; auto; apply no_hdr_app; auto; discriminate).
   - destruct (F5 H) as [A|[A|A]]; [left; inl|right; left; inl|right; right; assumption].
+  - right; left; inr.
   - left; inr.
-  - left; inr.
-  - destruct (F6 H) as [A|A]; [left; inl|right; assumption].
+  - destruct (F6 H) as [A|[A|A]]; [left; assumption|right; left; inl|right; right; assumption].
 Qed.
 
 Lemma PC_set_exited k :
@@ -267,16 +269,64 @@ Proof.
   unfold h2_open, h2_closed; cbn. destruct (h_op h); reflexivity.
 Qed.
 
-Lemma PC_cexit k :
-  PC k -> k_cph k = COpened ->
-  PC (set_cph CExited (cl_act (h2_send_rst (k_ch k)) (if h2_open (k_ch k) then [KRst] else []) k)).
+Lemma set_held_id k : set_held (k_held k) k = k.
+Proof. destruct k; reflexivity. Qed.
+
+(* reset_nowait while writing is paused: h2 closes the stream, the frame waits in h2's buffer *)
+Lemma PC_hold k :
+  PC k -> h2_open (k_ch k) = true -> PC (set_held true (cl_act (h2_send_rst (k_ch k)) [] k)).
 Proof.
-  intros H E. destruct (h2_open (k_ch k)) eqn:OP.
-  - apply PC_set_exited.
-    + apply (PC_csend k true H OP). discriminate.
-    + cbn. apply send_rst_not_open.
-    + destruct k; assumption.
-  - unfold h2_send_rst. rewrite OP. rewrite cl_act_nil. apply PC_set_exited; assumption.
+  intros H OP. destruct (open_is_op _ OP) as [O CL]. open_pc H.
+  unfold h2_send_rst. rewrite OP.
+  dk k; cbn in *; subst.
+  constructor; cbn; intros; rewrite ?app_nil_r; try discriminate; auto.
+  all: try (specialize (F1a H); discriminate).
+  all: try (specialize (F1c H); unfold h2_open in *; cbn in *; rewrite F1c in OP; discriminate).
+Qed.
+
+(* the held frame is written *)
+Lemma PC_flush1 k : PC k -> PC (flush1 k).
+Proof.
+  intros H. unfold flush1. destruct (k_held k) eqn:HD; [|assumption].
+  pose proof (f16 k H HD) as SR.
+  assert (CO : h_op (k_ch k) = true).
+  { destruct (h_op (k_ch k)) eqn:E; auto. rewrite (f0c k H E) in SR. discriminate. }
+  open_pc H. dk k; cbn in *; subst.
+  constructor; cbn; intros; try discriminate; auto.
+  - destruct (F3 H) as (A & B & C). repeat split; auto. intros _.
+    destruct (C eq_refl) as (es & r & E & N); subst qc.
+    eexists es, (r ++ [_]); split; [reflexivity|]; apply no_hdr_app; auto; discriminate.
+  - destruct (F4 H) as [A B]; split; auto; apply no_hdr_app; auto; discriminate.
+  - destruct (F5 H) as [A|[A|A]]; [left; inl|right; left; inl|right; right; assumption].
+  - right; left; inr.
+Qed.
+
+Lemma PC_cexit k (paused : bool) :
+  PC k -> k_cph k = COpened ->
+  PC (set_held (k_held k || (h2_open (k_ch k) && paused))
+        (set_cph CExited (cl_act (h2_send_rst (k_ch k))
+                                 (if h2_open (k_ch k) && negb paused then [KRst] else []) k))).
+Proof.
+  intros H E. destruct (h2_open (k_ch k)) eqn:OP; cbn [andb].
+  - destruct paused; cbn [negb].
+    + rewrite orb_true_r.
+      replace (set_held true (set_cph CExited (cl_act (h2_send_rst (k_ch k)) [] k)))
+        with (set_cph CExited (set_held true (cl_act (h2_send_rst (k_ch k)) [] k)))
+        by (destruct k; reflexivity).
+      apply PC_set_exited.
+      * apply PC_hold; assumption.
+      * cbn. apply send_rst_not_open.
+      * destruct k; assumption.
+    + rewrite orb_false_r.
+      replace (set_held (k_held k) (set_cph CExited (cl_act (h2_send_rst (k_ch k)) [KRst] k)))
+        with (set_cph CExited (cl_act (h2_send_rst (k_ch k)) [KRst] k)) by (destruct k; reflexivity).
+      apply PC_set_exited.
+      * apply (PC_csend k true H OP). discriminate.
+      * cbn. apply send_rst_not_open.
+      * destruct k; assumption.
+  - rewrite orb_false_r. unfold h2_send_rst. rewrite OP. rewrite cl_act_nil.
+    replace (set_held (k_held k) (set_cph CExited k)) with (set_cph CExited k) by (destruct k; reflexivity).
+    apply PC_set_exited; assumption.
 Qed.
 
 Lemma closed_mono_re o se re sr rr :
@@ -323,7 +373,7 @@ Proof.
       constructor; cbn -[h2_recv_end h2_closed h2_open]; intros; auto;
         rewrite ?E1, ?E2, ?E3, ?E4 in *; try congruence; auto.
       * split; [eapply no_hdr_tl; eauto|auto].
-      * destruct (F6 H) as [[A|A]|A]; try discriminate; auto.
+      * destruct (F6 H) as [A|[[A|A]|A]]; try discriminate; auto.
       * destruct (F12 H) as [A|A]; auto.
     + destruct (recv_rst_facts (k_sh k)) as (E1 & E2 & E3 & E4 & E5 & E6 & _).
       open_pc H. unfold srv_recv. cbn -[h2_recv_rst h2_closed h2_open].
@@ -340,7 +390,7 @@ Proof.
     + split; [assumption|discriminate].
     + destruct (F5 H) as [[A|A]|[[A|A]|[A|A]]]; try discriminate; auto.
       inversion A; auto.
-    + destruct (F6 H) as [[A|A]|A]; try discriminate; auto.
+    + destruct (F6 H) as [A|[[A|A]|A]]; try discriminate; auto.
 Qed.
 
 Lemma recv_end_id h : h2_open h = false -> h2_recv_end h = h.
@@ -395,7 +445,7 @@ Proof.
   - destruct (F2 H) as [_ A]; congruence.
   - split; [apply F4; assumption|assumption].
   - destruct (F5 H) as [A|[A|[A|A]]]; auto. right; right; left; congruence.
-  - destruct (F6 H) as [A|A]; auto.
+  - destruct (F6 H) as [A|[A|A]]; auto.
   - apply in_app_or in H; destruct H; auto.
   - apply in_app_or in H; destruct H; auto.
 Qed.
@@ -453,6 +503,21 @@ Proof.
   apply PC_wake. apply (A d); assumption.
 Qed.
 
+Lemma all_pc_map l g : (forall k, PC k -> PC (g k)) -> all_pc l -> all_pc (map g l).
+Proof.
+  intros G A d k. rewrite nth_map. destruct (nth_error l d) eqn:E; simpl; intros X; inversion X.
+  apply G. apply (A d); assumption.
+Qed.
+
+Lemma flush1_cph k : k_cph (flush1 k) = k_cph k.
+Proof. unfold flush1. destruct (k_held k); reflexivity. Qed.
+Lemma flush1_sph k : k_sph (flush1 k) = k_sph k.
+Proof. unfold flush1. destruct (k_held k); reflexivity. Qed.
+Lemma flush1_ch k : k_ch (flush1 k) = k_ch k.
+Proof. unfold flush1. destruct (k_held k); reflexivity. Qed.
+Lemma flush1_sh k : k_sh (flush1 k) = k_sh k.
+Proof. unfold flush1. destruct (k_held k); reflexivity. Qed.
+
 Lemma has_upd_same p l c f d :
   (forall k, p (f k) = p k) -> (has p (upd c f l) d <-> has p l d).
 Proof.
@@ -482,17 +547,17 @@ Proof.
 Qed.
 
 Lemma wake_opened k : is_opened (wake k) = is_opened k.
-Proof. unfold wake. destruct k as [[] ? ? ? ? ? ? ?]; reflexivity. Qed.
+Proof. unfold wake. destruct k as [[] ? ? ? ? ? ? ? ?]; reflexivity. Qed.
 Lemma wake_running k : is_running (wake k) = is_running k.
-Proof. unfold wake. destruct k as [[] ? ? ? ? ? ? ?]; reflexivity. Qed.
+Proof. unfold wake. destruct k as [[] ? ? ? ? ? ? ? ?]; reflexivity. Qed.
 Lemma wake_not_waiting k : is_waiting (wake k) = false.
-Proof. unfold wake. destruct k as [[] ? ? ? ? ? ? ?]; reflexivity. Qed.
+Proof. unfold wake. destruct k as [[] ? ? ? ? ? ? ? ?]; reflexivity. Qed.
 Lemma wake_ch k : k_ch (wake k) = k_ch k.
-Proof. unfold wake. destruct k as [[] ? ? ? ? ? ? ?]; reflexivity. Qed.
+Proof. unfold wake. destruct k as [[] ? ? ? ? ? ? ? ?]; reflexivity. Qed.
 Lemma wake_sh k : k_sh (wake k) = k_sh k.
-Proof. unfold wake. destruct k as [[] ? ? ? ? ? ? ?]; reflexivity. Qed.
+Proof. unfold wake. destruct k as [[] ? ? ? ? ? ? ? ?]; reflexivity. Qed.
 Lemma wake_closed_opened k : closed_opened (wake k) = closed_opened k.
-Proof. unfold wake, closed_opened. destruct k as [[] ? ? ? ? ? ? ?]; reflexivity. Qed.
+Proof. unfold wake, closed_opened. destruct k as [[] ? ? ? ? ? ? ? ?]; reflexivity. Qed.
 
 Lemma no_waiting_after_wake l : ~ exists c, has is_waiting (map wake l) c.
 Proof.
@@ -515,7 +580,7 @@ Proof. intros H T. destruct (h_se (k_sh k)) eqn:E; auto. rewrite (f13 k H E) in 
 
 Lemma step_all_pc s o : all_pc (calls s) -> all_pc (calls (fst (step s o))).
 Proof.
-  intros A. destruct o as [c es|c|c|c|c|c| |c nonok|c|c x|n]; simpl.
+  intros A. destruct o as [c es|c|c|c|c|c| |c nonok|c|c x|n| | | ]; simpl.
   - (* COpenTry *)
     destruct (nth_error (calls s) c) as [k|] eqn:E; [|exact A].
     assert (P := A _ _ E).
@@ -611,6 +676,9 @@ Proof.
       * intros _. rewrite T; reflexivity.
       * intros X. apply B5. apply (f15 k P X).
   - (* SSettings *) exact A.
+  - exact A.
+  - exact A.
+  - apply all_pc_map; [apply PC_flush1|exact A].
 Qed.
 
 Lemma has_upd_eq p l c f k d :
@@ -634,7 +702,7 @@ Qed.
 Lemma step_creg s o : creg_ok s -> creg_ok (fst (step s o)).
 Proof.
   intros [ND R]. unfold creg_ok.
-  destruct o as [c es|c|c|c|c|c| |c nonok|c|c x|n]; simpl.
+  destruct o as [c es|c|c|c|c|c| |c nonok|c|c x|n| | | ]; simpl.
   - destruct (nth_error (calls s) c) as [k|] eqn:E; [|split; assumption].
     assert (NI : is_opened k = false -> ~ In c (creg s)).
     { intros X I. apply R in I. apply (has_at _ _ _ _ E) in I. congruence. }
@@ -696,12 +764,15 @@ Proof.
     [|destruct (srv_trailers _ _) as [h fs]]; simpl; (split; auto);
       intros d; rewrite (has_upd_eq is_opened _ c _ k d E); auto.
   - split; assumption.
+  - split; assumption.
+  - split; assumption.
+  - simpl. split; auto. intros d. rewrite has_map; [apply R|]. intros k0. unfold is_opened. rewrite flush1_cph. reflexivity.
 Qed.
 
 Lemma step_sreg s o : all_pc (calls s) -> sreg_ok s -> sreg_ok (fst (step s o)).
 Proof.
   intros A [ND R]. unfold sreg_ok.
-  destruct o as [c es|c|c|c|c|c| |c nonok|c|c x|n]; simpl.
+  destruct o as [c es|c|c|c|c|c| |c nonok|c|c x|n| | | ]; simpl.
   - destruct (nth_error (calls s) c) as [k|] eqn:E; [|split; assumption].
     destruct (k_cph k) eqn:Ph; try (split; assumption);
       (destruct (Z.of_nat (open_out s) <? maxc s)%Z; simpl; (split; auto);
@@ -760,6 +831,9 @@ Proof.
        [ rewrite (has_upd_at _ _ _ _ _ E); cbn; intuition discriminate
        | rewrite has_upd_other by assumption; rewrite R; intuition congruence ]).
   - split; assumption.
+  - split; assumption.
+  - split; assumption.
+  - simpl. split; auto. intros d. rewrite has_map; [apply R|]. intros k0. unfold is_running. rewrite flush1_sph. reflexivity.
 Qed.
 
 (* waiters *)
@@ -819,6 +893,21 @@ Proof.
   intros W E P HP HC. apply waiter_upd_mono with k; auto; rewrite HC; auto.
 Qed.
 
+Lemma waiter_map l m g :
+  (forall k, k_cph (g k) = k_cph k) -> (forall k, k_ch (g k) = k_ch k) ->
+  waiter_ok' l m -> waiter_ok' (map g l) m.
+Proof.
+  intros G1 G2 W [d Wd].
+  assert (P1 : forall d, has is_waiting (map g l) d <-> has is_waiting l d)
+    by (intros d'; apply has_map; intros k; unfold is_waiting; rewrite G1; reflexivity).
+  assert (P2 : forall d, has closed_opened (map g l) d <-> has closed_opened l d)
+    by (intros d'; apply has_map; intros k; unfold closed_opened, is_opened; rewrite G1, G2; reflexivity).
+  destruct W as [W|[d' W]].
+  - exists d. apply P1; assumption.
+  - left. unfold open_cnt. rewrite count_map_same; auto. intros k. rewrite G2. reflexivity.
+  - right. exists d'. apply P2; assumption.
+Qed.
+
 Lemma send_end_facts h :
   h_op (h2_send_end h) = h_op h /\ (h2_closed h = true -> h2_closed (h2_send_end h) = true).
 Proof.
@@ -835,7 +924,7 @@ Qed.
 Lemma step_wait s o : all_pc (calls s) -> waiter_ok s -> waiter_ok (fst (step s o)).
 Proof.
   intros A W. rewrite waiter_ok_eq in *.
-  destruct o as [c es|c|c|c|c|c| |c nonok|c|c x|n]; simpl.
+  destruct o as [c es|c|c|c|c|c| |c nonok|c|c x|n| | | ]; simpl.
   - (* COpenTry *)
     destruct (nth_error (calls s) c) as [k|] eqn:E; [|exact W].
     assert (P := A _ _ E).
@@ -920,6 +1009,9 @@ Proof.
     match goal with |- context[if ?b then _ else _] => destruct b end;
     [|destruct (srv_trailers _ _) as [h fs]]; simpl; apply waiter_upd_server with k; auto; try apply (A _ _ E).
   - exact W.
+  - exact W.
+  - exact W.
+  - simpl. apply waiter_map; auto using flush1_cph, flush1_ch.
 Qed.
 
 (* ------------------------------------------------------------------------------------------ *)
@@ -1004,15 +1096,16 @@ Proof.
   destruct (f3 k H SO) as (_ & _ & X). destruct (X CO) as (es & r & E & _). congruence.
 Qed.
 
-(* once the client endpoint has closed the stream and its frames have arrived, the server's is closed *)
+(* once the client endpoint has closed the stream and its frames have been written and have arrived,
+   the server's is closed *)
 Lemma client_closed_closes_server k :
-  PC k -> k_qc k = [] -> h2_open (k_ch k) = false -> h2_open (k_sh k) = false.
+  PC k -> k_qc k = [] -> k_held k = false -> h2_open (k_ch k) = false -> h2_open (k_sh k) = false.
 Proof.
-  intros H Q NO. destruct (h_op (k_ch k)) eqn:CO.
+  intros H Q HD NO. destruct (h_op (k_ch k)) eqn:CO.
   - pose proof (srv_op_of_empty_wire k H Q CO) as SO.
     apply closed_not_open.
     destruct (closed_cases _ (not_open_op_closed _ NO CO)) as [SR|[RR|[SE RE]]].
-    + destruct (f6 k H SR) as [I|C]; auto. rewrite Q in I; inversion I.
+    + destruct (f6 k H SR) as [I|[I|C]]; auto; [congruence|]. rewrite Q in I; inversion I.
     + apply closed_of_sr. apply (f7 k H RR).
     + pose proof (f8 k H RE) as SSE.
       destruct (f5 k H SE) as [I|[I|[R|C]]]; auto; try (rewrite Q in I; inversion I).
@@ -1020,23 +1113,64 @@ Proof.
   - destruct (f2 k H CO) as [_ SO]. apply op_false_not_open; assumption.
 Qed.
 
-(* both sides: after any history in which all calls have exited (client contexts left, handlers ended)
-   and the client's frames have arrived *)
-Lemma no_open_streams n m ops :
+(* both sides: after any history in which all calls have exited (client contexts left, handlers ended),
+   everything the client's h2 had to send has been written and the client's frames have arrived.
+   FULL STATEMENT (false, see no_open_streams_refuted): the same with "writing is not paused" in place
+   of "no RST_STREAM is held back in the client's h2 buffer". *)
+Lemma no_open_streams_partial n m ops :
   let s := run ops (init n m) in
   all_calls is_cexited s -> all_calls (fun k => negb (is_running k)) s ->
   all_calls (fun k => match k_qc k with [] => true | _ => false end) s ->
+  all_calls (fun k => negb (k_held k)) s ->
   creg s = [] /\ sreg s = [] /\ open_out s = 0 /\ open_in s = 0.
 Proof.
-  intros s X Y Z. destruct (client_side_clean n m ops X) as [C1 C2]. fold s in C1, C2.
+  intros s X Y Z HD. destruct (client_side_clean n m ops X) as [C1 C2]. fold s in C1, C2.
   destruct (Inv_run ops (init n m) (Inv_init n m)) as [A _ [_ B] _]. fold s in A, B.
   repeat split; auto.
   - apply nil_of_no_member. intros c I. apply B in I. destruct I as (k & E & P).
     specialize (Y _ _ E). cbn in Y. rewrite P in Y. discriminate.
-  - apply count_zero. intros c k E. apply client_closed_closes_server; [apply (A _ _ E)| |].
+  - apply count_zero. intros c k E. apply client_closed_closes_server; [apply (A _ _ E)| | |].
     + specialize (Z _ _ E). cbn in Z. destruct (k_qc k); auto; discriminate.
+    + specialize (HD _ _ E). cbn in HD. destruct (k_held k); auto; discriminate.
     + apply (f1c k (A _ _ E)). specialize (X _ _ E). unfold is_cexited in X.
       destruct (k_cph k); auto; discriminate.
+Qed.
+
+(* per call: once the client has left the context, its h2 has written everything and the frames have
+   arrived, the stream no longer counts at the server (whatever the handler does) *)
+Lemma client_exit_reaches_server_partial n m ops c k :
+  let s := run ops (init n m) in
+  nth_error (calls s) c = Some k -> k_cph k = CExited -> k_qc k = [] -> k_held k = false ->
+  h2_open (k_ch k) = false /\ h2_open (k_sh k) = false.
+Proof.
+  intros s E X Q HD. destruct (Inv_run ops (init n m) (Inv_init n m)) as [A _ _ _]. fold s in A.
+  pose proof (f1c k (A _ _ E) X) as NO. split; auto.
+  apply client_closed_closes_server; auto. apply (A _ _ E).
+Qed.
+
+(* FULL STATEMENT of the above without `k_held k = false` but with "writing is not paused": false.
+   A call leaves its context (application exception, cancel of the task, deadline, early return)
+   while writing is paused; writing resumes; the handler is waiting for the client: the state is
+   quiescent and writable, the client is done with the call (nothing tracked, stream closed in its h2)
+   -- and the server still tracks the call, its stream still counts, the handler keeps running, because
+   the RST_STREAM is still in the client's h2 buffer and resume_writing writes nothing *)
+Definition held_witness_running : list op := [COpenTry 0 false; DeliverC2S 0; CPause; CExit 0; CResume].
+
+Lemma client_exit_reaches_server_refuted :
+  exists n m ops c k, let s := run ops (init n m) in
+    nth_error (calls s) c = Some k /\ k_cph k = CExited /\ k_qc k = [] /\
+    cpaused s = false /\ quiescent s = true /\
+    creg s = [] /\ open_out s = 0 /\ sreg s = [c] /\ open_in s = 1 /\ h2_open (k_sh k) = true.
+Proof.
+  exists 1, 100%Z, held_witness_running, 0. eexists. cbn. repeat split; reflexivity.
+Qed.
+
+(* the held frame leaves with the next write of any kind *)
+Lemma flush_releases_held s :
+  all_calls (fun k => negb (k_held k)) (fst (step s CFlush)).
+Proof.
+  intros c k E. simpl in E. rewrite nth_map in E. destruct (nth_error (calls s) c) as [k0|]; simpl in E; inversion E.
+  unfold flush1. destruct (k_held k0) eqn:HD; cbn; [reflexivity|rewrite HD; reflexivity].
 Qed.
 
 (* the server side alone, against any client that has closed its half of every stream.
@@ -1054,7 +1188,8 @@ Proof.
   { destruct (h_op (k_sh k)) eqn:E; auto. destruct (f3 k H E) as (_ & N & _). congruence. }
   assert (CO : h_op (k_ch k) = true).
   { destruct (h_op (k_ch k)) eqn:E; auto. destruct (f2 k H E) as [_ N]. congruence. }
-  unfold client_half_closed in HC. rewrite CO in HC. simpl in HC.
+  unfold client_half_closed in HC. apply andb_prop in HC. destruct HC as [HD HC].
+  apply negb_true_iff in HD. rewrite CO in HC. simpl in HC.
   apply orb_prop in HC. destruct HC as [SE|CL].
   - apply closed_not_open.
     destruct (f12 k H X) as [SSE|C]; auto.
@@ -1199,7 +1334,7 @@ Proof.
   assert (WK : is_woken (wake k) = true).
   { revert P. unfold wake, is_woken. destruct (k_cph k) eqn:X; try discriminate; cbn; rewrite ?X; reflexivity. }
   assert (H0 : has is_woken (calls s) c) by (exists k; auto).
-  destruct o as [d es|d|d|d|d|d| |d nonok|d|d x|v]; simpl.
+  destruct o as [d es|d|d|d|d|d| |d nonok|d|d x|v| | | ]; simpl.
   - destruct (nth_error (calls s) d) as [kd|] eqn:Ed; [|exact H0].
     destruct (k_cph kd) eqn:Ph; try exact H0;
       (destruct (Z.of_nat (open_out s) <? maxc s)%Z; simpl; apply U; intros ->; exfalso; apply (N1 es); reflexivity).
@@ -1237,6 +1372,10 @@ Proof.
     match goal with |- context[if ?b then _ else _] => destruct b end;
     [|destruct (srv_trailers _ _) as [h fs]]; simpl; apply U; intros ->; exact P.
   - exact H0.
+  - exact H0.
+  - exact H0.
+  - simpl. unfold has. rewrite nth_map, E. simpl. eexists; split; eauto.
+    unfold is_woken. rewrite flush1_cph. exact P.
 Qed.
 
 (* a woken (or new) call that finds a free slot proceeds *)
@@ -1257,7 +1396,7 @@ Lemma woken_without_slot_reblocks s c k es :
   (maxc s <= Z.of_nat (open_out s))%Z ->
   snd (step s (COpenTry c es)) = OBlocked /\
   fst (step s (COpenTry c es)) =
-    Build_state (upd c (set_cph CWaiting) (calls s)) (creg s) (sreg s) (maxc s) false (sq s).
+    Build_state (upd c (set_cph CWaiting) (calls s)) (creg s) (sreg s) (maxc s) false (sq s) (cpaused s).
 Proof.
   intros E Ph LE. apply Z.ltb_ge in LE. simpl. rewrite E.
   destruct Ph as [Ph|Ph]; rewrite Ph, LE; simpl; auto.
@@ -1592,4 +1731,33 @@ Proof.
       * right. exists c. split; auto.
   - exists (map (fun ce => COpenTry (fst ce) (snd ce)) (ord s)). split; auto.
     intros o I. apply in_map_iff in I. destruct I as ([c' es'] & <- & _). left; eauto.
+Qed.
+
+(* the mechanism behind "finished with an error status => the stream no longer counts at the server":
+   non-OK trailers are followed by RST_STREAM whenever the stream is still closable *)
+Lemma srv_trailers_nonok_closed h : h2_open (fst (srv_trailers true h)) = false.
+Proof.
+  unfold srv_trailers. cbn [andb].
+  destruct (h2_open (h2_send_end h)) eqn:E; cbn [fst]; [apply send_rst_not_open|assumption].
+Qed.
+
+Lemma error_status_closes_stream s c k :
+  nth_error (calls s) c = Some k -> k_sph k = SRunning ->
+  (snd (step s (STrailers c true)) = ONone ->
+   exists k', nth_error (calls (fst (step s (STrailers c true)))) c = Some k' /\ h2_open (k_sh k') = false) /\
+  (k_trail k = false -> k_cancel k = false ->
+   exists k', nth_error (calls (fst (step s (SExit c KErr)))) c = Some k' /\ h2_open (k_sh k') = false).
+Proof.
+  intros E R. split.
+  - simpl. rewrite E, R. destruct (k_trail k); [discriminate|].
+    destruct (negb (h2_open (k_sh k))); [discriminate|].
+    pose proof (srv_trailers_nonok_closed (k_sh k)) as X.
+    destruct (srv_trailers true (k_sh k)) as [h fs]. simpl. intros _.
+    rewrite (nth_upd_same _ _ _ _ E). eexists; split; [reflexivity|exact X].
+  - intros T C. simpl. rewrite E, R, T, C. simpl.
+    destruct (h2_open (k_sh k)) eqn:OP; simpl.
+    + pose proof (srv_trailers_nonok_closed (k_sh k)) as X.
+      destruct (srv_trailers true (k_sh k)) as [h fs]. simpl.
+      rewrite (nth_upd_same _ _ _ _ E). eexists; split; [reflexivity|exact X].
+    + rewrite (nth_upd_same _ _ _ _ E). eexists; split; [reflexivity|exact OP].
 Qed.
